@@ -175,15 +175,11 @@ func coqNets(args []string) (string, error) {
 	}
 	items := make([]string, 0, len(nets))
 	for _, n := range nets {
-		ones, bits := n.Mask.Size()
-		if bits != len(n.IP)*8 || (len(n.IP) != 4 && len(n.IP) != 16) {
-			return "", fmt.Errorf("non canonical net %v", n)
+		r, err := ranges.FromIPNet(n)
+		if err != nil {
+			return "", err
 		}
-		fam := "V6"
-		if len(n.IP) == 4 {
-			fam = "V4"
-		}
-		items = append(items, fmt.Sprintf("(%s, %s, %s)", fam, bigN(new(big.Int).SetBytes(n.IP.Mask(n.Mask))), hx.N(uint64(ones))))
+		items = append(items, fmt.Sprintf("(V%d, %s, %s)", r.Fam, bigN(r.Addr), hx.N(uint64(r.Len))))
 	}
 	return hx.List(items), nil
 }
